@@ -160,6 +160,7 @@ class World:
         simulated time; returns (reads, writes) as sets of real paths of files."""
         reads, writes = set(), set()
         T = self.tick()
+        linked = {}  # (dev, ino) -> "w" / "r": every name of a hard-linked file gets the verdict of the first one visited
         for dp, dns, fns in os.walk(self.real_root):
             for name in fns + dns:
                 p = os.path.join(dp, name)
@@ -170,6 +171,12 @@ class World:
                 isdir = statmod.S_ISDIR(st.st_mode)
                 if name == simninja.LOG_NAME:
                     continue
+                if not isdir and st.st_nlink > 1:
+                    key = (st.st_dev, st.st_ino)
+                    if key in linked:
+                        (writes if linked[key] == "w" else reads if linked[key] == "r" else set()).add(p)
+                        continue
+                    linked[key] = "w" if st.st_mtime_ns >= REAL else ("r" if st.st_atime_ns != st.st_mtime_ns else "-")
                 if st.st_mtime_ns >= REAL:
                     if not isdir and not statmod.S_ISLNK(st.st_mode):
                         writes.add(p)
